@@ -1228,6 +1228,167 @@ example : ¬ Stray W2.w0 ∧
   · exact ⟨{ sels := [[.q .typeSel (.uri W.u1) W.a]], owner := some false, own := [[(W.p, W.u1)]],
              posA := some 0, posB := none }, by decide, by decide⟩
 
+/-- the re-parenting roll-back of `insertRule` (`rolledBack`, the only way a call on ONE sheet changes the parent of a
+rule that sits in its list) happens only inside calls that are rejected with NoModificationAllowedErr and leave the
+rule list as it was -/
+theorem rolled_back_only_when_rejected (s : Sheet) (op : Op) (h : rolledBack s op = true) :
+    step s op = (s, .err .noModificationAllowedErr) := by
+  have key : ∀ (r : NsRule) (idx : Option Nat) (io : Bool), insertNsRolledBack s r idx io = true →
+      insertNs s r idx io true = (s, .err .noModificationAllowedErr) := by
+    intro r idx io hr
+    unfold insertNsRolledBack at hr
+    unfold insertNs
+    cases hp : nsPosition s idx io with
+    | error e => simp [hp] at hr
+    | ok index =>
+      simp only [hp] at hr ⊢
+      unfold insertNsAt
+      split at hr
+      · simp at hr
+      · rename_i hd
+        simp [hd, hr]
+  cases op with
+  | insNs p u idx io =>
+    simp only [rolledBack] at h
+    simp only [step]
+    split at h
+    · simp at h
+    · rename_i h1
+      split at h
+      · simp at h
+      · rename_i h2
+        simp only [h1, h2, if_false]
+        exact key _ _ _ h
+  | insNsText p u c0 c1 c2 idx io =>
+    simp only [rolledBack] at h
+    simp only [step]
+    split at h
+    · simp at h
+    · rename_i h1
+      split at h
+      · simp at h
+      · rename_i h2
+        simp only [h1, h2, if_false]
+        exact key _ _ _ h
+  | setNs p u =>
+    simp only [rolledBack] at h
+    simp only [step, setNs]
+    cases hf : findLastNs p s with
+    | some x => simp [hf] at h
+    | none =>
+      simp only [hf] at h ⊢
+      split at h
+      · simp at h
+      · rename_i h2
+        simp only [h2, if_false]
+        rw [key _ _ _ h]
+  | parse init src => simp [rolledBack] at h
+  | delNs p => simp [rolledBack] at h
+  | delRule i => simp [rolledBack] at h
+  | setPrefix i q => simp [rolledBack] at h
+  | setSelText i sels => simp [rolledBack] at h
+  | insStyleText sels idx io => simp [rolledBack] at h
+  | insStyleObj sels idx io => simp [rolledBack] at h
+  | setNsText i p u c0 c1 c2 => simp [rolledBack] at h
+  | rawDel i => simp [rolledBack] at h
+  | insMediaText i sels idx => simp [rolledBack] at h
+
+/-- non-vacuity: `@namespace q "u1"; @namespace p "u2"; q|a {…}` and `add(CSSNamespaceRule(p, u1))` — the clean-up
+removes the rule of `q`, is then refused, and the roll-back runs -/
+example : rolledBack (step [] (.parse [] [.ns W.q W.u1 false false false, .ns W.p W.u2 false false false,
+    .style [[.q .typeSel (.named W.q) W.a]]])).1 (.insNs W.p W.u1 none true) = true := by
+  decide
+
+/-- the serialised @namespace rules of BOTH sheets stay well-formed under every operation of the two-sheet model,
+no guard (`wf_step` for two sheets) -/
+theorem wf_wstep (w : World) (op : WOp) (h : ∀ side, AllGoodNs (w.sheet side)) :
+    ∀ side, AllGoodNs ((wstep w op).1.sheet side) := by
+  have hset : ∀ (s : Sheet) (k : Option Nat) (x : List Sel), AllGoodNs s → AllGoodNs (setAtRank s k (.style x)) := by
+    intro s k x hs
+    unfold setAtRank
+    cases k with
+    | none => exact hs
+    | some k =>
+      simp only
+      cases bodyIndex s k with
+      | none => exact hs
+      | some i =>
+        intro n hn
+        rcases List.mem_or_eq_of_mem_set hn with hn | hn
+        · exact hs n hn
+        · cases hn
+  have hobj : ∀ (o : Obj) (sels : List SSel), ∀ side, AllGoodNs ((objSetSel w o sels).1.sheet side) := by
+    intro o sels side
+    unfold objSetSel
+    split
+    · exact h side
+    · cases resolveSels (w.objDict o) sels with
+      | error e => exact h side
+      | ok x =>
+        cases side with
+        | false => exact hset _ _ _ (h false)
+        | true => exact hset _ _ _ (h true)
+  cases op with
+  | objSel sels =>
+    simp only [wstep]
+    cases ho : w.obj with
+    | none => exact h
+    | some o => exact hobj o sels
+  | share to idx io =>
+    simp only [wstep]
+    cases ho : w.obj with
+    | none => exact h
+    | some o =>
+      simp only
+      cases hp : o.pos to with
+      | some k => exact h
+      | none =>
+        simp only
+        split
+        · intro sd
+          rw [World.sheet_with_obj]
+          rcases eq_or_not sd to with e | e
+          · subst e; rw [World.sheet_setSheet_same]; exact allGood_insertStyle _ _ (h sd)
+          · subst e; rw [World.sheet_setSheet_other]; exact h _
+        · exact h
+  | grab side i sels =>
+    simp only [wstep]
+    split
+    · split
+      · exact h
+      · cases hr : resolveSels (view (w.sheet side)) sels with
+        | error e => exact h
+        | ok x =>
+          simp only
+          intro sd
+          rw [World.sheet_with_obj]
+          rcases eq_or_not sd side with e | e
+          · subst e
+            rw [World.sheet_setSheet_same]
+            intro n hn
+            rcases List.mem_or_eq_of_mem_set hn with hn | hn
+            · exact h sd n hn
+            · cases hn
+          · subst e; rw [World.sheet_setSheet_other]; exact h _
+    · exact h
+  | on side op =>
+    by_cases hhit : ∃ i sels, op = .setSelText i sels ∧ w.objIndex side = some i
+    · obtain ⟨i, sels, rfl, hi⟩ := hhit
+      simp only [wstep, hi, if_true]
+      cases ho : w.obj with
+      | none => exact h
+      | some o => exact hobj o sels
+    · have hno : ∀ i sels, op = .setSelText i sels → w.objIndex side ≠ some i :=
+        fun i sels e hi => hhit ⟨i, sels, e, hi⟩
+      obtain ⟨h1, h2⟩ := wstep_on_sheets w side op hno
+      intro sd
+      rcases eq_or_not sd side with e | e
+      · subst e
+        rcases h1 with h1 | h1
+        · rw [h1]; exact wf_step _ op (h sd)
+        · rw [h1]; exact h sd
+      · subst e; rw [h2]; exact h _
+
 /-- T15.5 (coherence of the two-sheet model): the rank recorded for the followed object is where BOTH rule lists
 show its selectors (`Sync`), and EVERY operation of the model keeps it so: namespace operations on either sheet
 (with their roll-backs), `parse`, `selectorText =` on the object and on other rules, insertion into @media,
